@@ -48,10 +48,12 @@ func (w *World) checkEntriesBytes(op *Op) []entryJSON {
 			return nil
 		}
 		want := st.Extra
+		okExtra := bytes.Equal(e.ExtraData, want)
 		if w.mode.External {
 			want = w.x.fullExtra(st)
+			okExtra = w.x.extraOK(st, e.ExtraData)
 		}
-		if !bytes.Equal(e.ExtraData, want) {
+		if !okExtra {
 			s.Violate("entries-bytes", "extra_data", "op%03d get-entries(%d,%d): extra_data at position %d is not the stored extra data of index %d (%d vs %d bytes)", op.ID, op.A, op.B, i, idx, len(e.ExtraData), len(want))
 			return nil
 		}
@@ -62,6 +64,9 @@ func (w *World) checkEntriesBytes(op *Op) []entryJSON {
 // subByLeaf finds the submission whose stored leaf is at idx.
 func (w *World) subForIndex(idx int64) *Submission {
 	id := w.be.Log.Seq[idx].Identity
+	if c := w.be.Creator[string(id)]; c != nil {
+		return c
+	}
 	for _, sub := range w.subs {
 		if bytes.Equal(sha(sub.Leaf.DER), id) {
 			return sub
@@ -157,11 +162,11 @@ func oracleC07(w *World, op *Op) {
 			return
 		}
 		st := w.be.Log.Seq[op.A]
-		want := st.Extra
+		okExtra := bytes.Equal(j.ExtraData, st.Extra)
 		if w.mode.External {
-			want = w.x.fullExtra(st)
+			okExtra = w.x.extraOK(st, j.ExtraData)
 		}
-		if !bytes.Equal(j.LeafInput, st.Value) || !bytes.Equal(j.ExtraData, want) {
+		if !bytes.Equal(j.LeafInput, st.Value) || !okExtra {
 			s.Violate("entries-bytes", "get-entry-and-proof", "op%03d get-entry-and-proof(%d,%d): bytes differ from the stored entry of index %d", op.ID, op.A, op.B, op.A)
 			return
 		}
@@ -205,5 +210,5 @@ func (w *World) decodedMatches(le *ct.LogEntry, sub *Submission, idx int64) stri
 			return "certificate bytes"
 		}
 	}
-	return chainDiff(chain, sub.FullChainAfterLeaf())
+	return sub.chainOK(chain)
 }
